@@ -306,7 +306,8 @@ def refs_of(o, out):
 
 def classify(line, tags, model_out, impl_out, verdict):
     """C10-dangling-in-range: some reference reachable from the trailer, or some bookmark target, names no
-    object and its NUMBER lies in the new range [start, start+n)."""
+    object and its NUMBER lies in the new range [start, start+n).  Mirrors KnownClass of
+    coq/Proofs/RenumberProofsTop.v (C10_KnownClass_spec): existsb over reach_list ++ bm_targets."""
     try:
         c = parse_sx(line)
         rd, start = c[2], int(c[3])
@@ -316,9 +317,9 @@ def classify(line, tags, model_out, impl_out, verdict):
         for e in objs:
             m[(int(e[0][0]), int(e[0][1]))] = e[1]
         n = len(m)
+        in_range = lambda r: r not in m and start <= r[0] < start + n
+        # reach_list: targets of references reachable from the trailer (followed through the objects they name)
         todo = refs_of(trailer, [])
-        for b in rd[2][1:]:
-            todo.append((int(b[1][0]), int(b[1][1])))
         seen = set()
         while todo:
             r = todo.pop()
@@ -327,7 +328,12 @@ def classify(line, tags, model_out, impl_out, verdict):
             seen.add(r)
             if r in m:
                 todo.extend(refs_of(m[r], []))
-            elif start <= r[0] < start + n:
+            elif in_range(r):
+                return 'dangling-in-range'
+        # bm_targets: the bookmark targets themselves (an object that only a bookmark names is NOT followed:
+        # renumbering does not rename its references, Props/C10.v KnownClass does not look into it)
+        for b in rd[2][1:]:
+            if in_range((int(b[1][0]), int(b[1][1]))):
                 return 'dangling-in-range'
         return None
     except Exception:
